@@ -39,6 +39,12 @@ type Case struct {
 	Extras  []Extra
 	CritAdd []string // additional crit entries (phantom / specification labels)
 	Expiry  bool
+	// CritExtrasFirst lists the extras' labels in front of the specification
+	// labels in the crit header (crit is a set: order means nothing)
+	CritExtrasFirst bool
+	// ZeroExpiry adds an expiry header carrying the zero instant, not listed in
+	// crit (JWS; whether that is acceptable is not settled: delicate)
+	ZeroExpiry bool
 }
 
 func (c Case) desc() string {
@@ -57,7 +63,7 @@ func (c Case) desc() string {
 		}
 		ex = append(ex, fmt.Sprintf("%q%s=%s", e.Label, cr, v))
 	}
-	return fmt.Sprintf("%s scheme=%s extras=[%s] crit+=%v", mtName(c.MT), c.Scheme, strings.Join(ex, " "), c.CritAdd)
+	return fmt.Sprintf("%s scheme=%s extras=[%s] crit+=%v crit-extras-first=%v zero-expiry=%v", mtName(c.MT), c.Scheme, strings.Join(ex, " "), c.CritAdd, c.CritExtrasFirst, c.ZeroExpiry)
 }
 
 func mtName(mt string) string {
@@ -73,7 +79,9 @@ var textLabels = []string{"ALG", "Cty", "IO.CNCF.NOTARY.EXPIRY", "io.cncf.notary
 	// pairs that differ in nothing but letter case: two different headers
 	"buildId", "buildID", "upper", "IO.EXAMPLE.A", "K",
 	// names of UNPROTECTED headers, used inside the protected header: extra headers like any other
-	"x5c", "io.cncf.notary.signingAgent", "io.cncf.notary.timestampSignature", "x5chain"}
+	"x5c", "io.cncf.notary.signingAgent", "io.cncf.notary.timestampSignature", "x5chain",
+	// header parameter names registered for JOSE that the envelope specification does not define
+	"kid", "typ", "jku", "jwk", "x5u", "x5t", "x5t#S256"}
 var intLabels = []int64{4, 8, 10, 13, 14, 17, 100, 255, 256, 65536, 4294967296, 9223372036854775807, -1, -2, -24, -25, -70000, -4294967297, -9223372036854775808}
 
 type valuePair struct {
@@ -146,6 +154,10 @@ func genExtras(rng *rand.Rand, mt string, n int) []Extra {
 func (c *Case) build() ([]byte, error) {
 	m := c07.NewModel(c.MT, c.Scheme, chain, c.Expiry)
 	crit := m.Crit()
+	nSpec := len(crit)
+	if c.ZeroExpiry && c.MT == sims.JWS && !c.Expiry {
+		m.JWS = append(m.JWS, envcodec.Member{Name: envcodec.JExpiry, Raw: json.RawMessage(`"0001-01-01T00:00:00Z"`)})
+	}
 	for _, e := range c.Extras {
 		var raw []byte
 		fmt.Sscanf(e.CBORHex, "%x", &raw)
@@ -162,6 +174,9 @@ func (c *Case) build() ([]byte, error) {
 		if e.Critical {
 			crit = append(crit, e.Label)
 		}
+	}
+	if c.CritExtrasFirst {
+		crit = append(append([]string{}, crit[nSpec:]...), crit[:nSpec]...)
 	}
 	crit = append(crit, c.CritAdd...)
 	m.SetCrit(crit)
@@ -180,7 +195,7 @@ func labelKey(mt string, l string) any {
 
 func execute(r *core.Run, c *Case) {
 	// a crit entry added on the side may happen to name one of the extras
-	c = &Case{MT: c.MT, Scheme: c.Scheme, Extras: append([]Extra{}, c.Extras...), CritAdd: c.CritAdd, Expiry: c.Expiry}
+	c = &Case{MT: c.MT, Scheme: c.Scheme, Extras: append([]Extra{}, c.Extras...), CritAdd: c.CritAdd, Expiry: c.Expiry, CritExtrasFirst: c.CritExtrasFirst, ZeroExpiry: c.ZeroExpiry}
 	for i := range c.Extras {
 		for _, a := range c.CritAdd {
 			if a == c.Extras[i].Label {
@@ -353,6 +368,9 @@ func hasDelicate(c *Case) bool {
 			return true
 		}
 	}
+	if c.ZeroExpiry {
+		return true
+	}
 	// a JWS label that equals a specification header under case folding: the
 	// statement does not say such an envelope must be accepted (it must not be
 	// mis-surfaced if it is)
@@ -458,7 +476,7 @@ func run(r *core.Run) int {
 						for j := range cp {
 							cp[j].Critical = mask>>j&1 == 1
 						}
-						cases = append(cases, &Case{MT: mt, Scheme: scheme, Extras: cp, Expiry: i%2 == 0})
+						cases = append(cases, &Case{MT: mt, Scheme: scheme, Extras: cp, Expiry: i%2 == 0, CritExtrasFirst: mask%2 == 1, ZeroExpiry: mt == sims.JWS && i%2 == 1 && mask%3 == 0})
 					}
 				} else {
 					for j := range ex {
